@@ -29,7 +29,10 @@ MANIFEST_ENTRY = {
             "(models compared with the rule modules on the facts of the resolved library): per-declaration rules give the same "
             "diagnostics (code and place) as a multiset for every order of the units; the constant rules' verdict is a statement "
             "about the set of declarations; with distinct enumeration / function block names the enumerated-value and invocation "
-            "rules' verdict is the same for every order. The transforms (late-bound resolution) are NOT modelled; the whole pipeline "
+            "rules' verdict is the same for every order; the late-bound type transformation gives the same new initializer kinds / "
+            "undeclared references (as multisets) for every order of declarations and references: a type or function block declared "
+            "anywhere is visible everywhere. The other transforms (declaration sort beyond its re-assembly, alias resolution) are NOT "
+            "modelled; the whole pipeline "
             "is tied by enumerating all permutations of generated valid and single-fault units "
             "(up to 4 declarations quick / 5 thorough), all partitions into <= 3 files, all argument orders, and by running the "
             "real binary repeatedly (fresh hash seeds), comparing verdict, code and the identifier the diagnostic points at.",
@@ -123,6 +126,7 @@ def search(run, info):
     sc_n, sc_bad = scope_corr.check(run, [[(f[0], c["_texts"][f[0]]) for f in c["files"]] for c in cases[::step]], info, "c06")
     # ... and the other rule visitors against their Coq models (facts of the resolved library), on the same sample
     rl_n, rl_bad = rules_corr.check(run, [[(f[0], c["_texts"][f[0]]) for f in c["files"]] for c in cases[::step]], info, "c06")
+    ty_n, ty_bad = rules_corr.check_types(run, [[(f[0], c["_texts"][f[0]]) for f in c["files"]] for c in cases[::step]], info, "c06")
     for gi, (kind, code, decls, idxs) in enumerate(groups):
         obs = {}
         for ci in idxs:
